@@ -61,6 +61,7 @@ def check(ctx):
         lib = ctx.load(cfg)
         frontend = "frontend" in lib.features
         kernel.P_pair(ctx, lib, frontend)
+        kernel.R_new(ctx, lib)
         kernel.W_store(ctx, {"lib": lib})
         if frontend:
             kernel.R_recv(ctx, lib, "C19.R-recv",
